@@ -53,9 +53,16 @@ type Contract struct {
 	rawMods  []rawMod
 	Use      map[string]map[string]bool  // callee → the callee's ensures clauses assumed at call sites (default: all)
 	Asserts  map[string][]*Clause        // cut points: "before <callee>#<n>" → clauses checked, then assumed
+	Ghosts   map[string][]ghostDef // cut point key → ghost variables bound there
 	ExitAsserts []*Clause             // checked at every return site; may name locals; not exported to callers
 	Inline   map[string]bool             // callees executed from their bodies instead of their contracts
 	Witness  map[string]map[string]SExpr // clause name → existential variable → witness term (tried at return sites)
+}
+
+type ghostDef struct {
+	Name string
+	E    SExpr
+	Pos  token.Position
 }
 
 type rawMod struct {
@@ -565,6 +572,32 @@ func (e *Engine) parseContracts() {
 				continue
 			}
 			cur.Assumes = append(cur.Assumes, mkClause(l, rest, fmt.Sprintf("assume%d", len(cur.Assumes))))
+		case "ghost":
+			// ghost before|after <callee>#<n> name = expr — binds a specification
+			// variable to the value expr has at that cut point
+			if cur == nil {
+				perr(l, "ghost outside a contract")
+				continue
+			}
+			f := strings.Fields(rest)
+			eqi := strings.Index(rest, "=")
+			if len(f) < 5 || (f[0] != "before" && f[0] != "after") || f[3] != "=" || eqi < 0 {
+				perr(l, "ghost before|after <callee>#<n> name = expr")
+				continue
+			}
+			ex, err := parseSpec(strings.TrimSpace(rest[eqi+1:]))
+			if err != nil {
+				perr(l, err.Error())
+				continue
+			}
+			key := f[1]
+			if f[0] == "after" {
+				key = "after " + key
+			}
+			if cur.Ghosts == nil {
+				cur.Ghosts = map[string][]ghostDef{}
+			}
+			cur.Ghosts[key] = append(cur.Ghosts[key], ghostDef{Name: f[2], E: ex, Pos: l.pos})
 		case "exit-assert":
 			// exit-assert name: expr — holds at every return site; may mention locals
 			if cur == nil {
